@@ -115,14 +115,14 @@ def odd_exception(shape, text):
     if shape == 'deep':
         # a retry loop that chains every attempt to the previous one
         e = ValueError(text + ' attempt 0')
-        for k in range(1, 3000):
+        for k in range(1, 1100):
             n = ValueError('%s attempt %d' % (text, k))
             n.__cause__ = e
             e = n
         return e
     if shape == 'deepctx':
         e = ValueError(text + ' attempt 0')
-        for k in range(1, 1500):
+        for k in range(1, 1100):
             n = ValueError('%s attempt %d' % (text, k))
             n.__context__ = e
             e = n
